@@ -787,13 +787,13 @@ def observe(ses, op, res, where):
                 continue
             if den <= TOL12:
                 c('oracle:below-threshold')
-                if abs(got) > TOL12 * fmax * (1 + 1e-6) + 1e-300:
+                if not (abs(got) <= TOL12 * fmax * (1 + 1e-6) + 1e-300):
                     out['fails'].append(('C14:shepard:below-threshold',
                                          '|value| <= 1e-12*max|f| at point %d' % i, repr(got)))
                 continue
             want = num / den
             c('oracle:weighted-mean')
-            if abs(got - want) > REL * (sabs / abs(den)) + 1e-300:
+            if not (abs(got - want) <= REL * (sabs / abs(den)) + 1e-300):
                 out['fails'].append((fail_key(ses, 'shepard', 'weighted-mean'),
                                      'sum(w f)/sum(w) = %r at point %d' % (want, i), repr(got)))
                 continue
@@ -805,7 +805,7 @@ def observe(ses, op, res, where):
                                          'between %r and %r at point %d' % (lo, hi, i), repr(got)))
                 if lo == hi:
                     c('oracle:constant')
-                    if abs(got - lo) > 1e-12 * max(abs(lo), 1e-300):
+                    if not (abs(got - lo) <= 1e-12 * max(abs(lo), 1e-300)):
                         out['fails'].append((fail_key(ses, 'shepard', 'constant'),
                                              'constant %r reproduced at point %d' % (lo, i), repr(got)))
         elif method in ('sph', 'splash'):
@@ -815,7 +815,7 @@ def observe(ses, op, res, where):
             if not con and got != 0.0:
                 out['fails'].append(('C14:%s:zero-out-of-range' % method,
                                      '0.0 at point %d' % i, repr(got)))
-            elif abs(got - want) > REL * sabs + 1e-300:
+            elif not (abs(got - want) <= REL * sabs + 1e-300):
                 out['fails'].append((fail_key(ses, method, 'documented-sum'),
                                      'sum (m/rho) W f = %r at point %d' % (want, i), repr(got)))
         elif method == 'splash_norm':
@@ -832,7 +832,7 @@ def observe(ses, op, res, where):
             want = num / den if den > TOL12 else num
             sc = sabs / abs(den) if den > TOL12 else sabs
             c('oracle:documented-sum')
-            if abs(got - want) > REL * sc + 1e-300:
+            if not (abs(got - want) <= REL * sc + 1e-300):
                 out['fails'].append((fail_key(ses, method, 'documented-sum'),
                                      'normalised sum = %r at point %d' % (want, i), repr(got)))
     return out
